@@ -180,6 +180,21 @@ def o_disable(rec: Recorder, case, soft=False):
     if not restorable and not (st == "err" and isinstance(e2, ValueError)):
         rec.fail(f"C18/redisable-invents-original/{dis}", "disable(disable(o)) embeds an original that was never given", "disable_enable", case, repr(e2), "ValueError", soft=soft)
         return
+    # the stored string may be handed in as ASCII bytes (as read from a shadow file): same answers as for the text
+    if orig is not None and not marker_orig:
+        forms = [("disable", lambda x: ctx.disable(x), orig), ("is_enabled", lambda x: ctx.is_enabled(x), d), ("identify", lambda x: ctx.identify(x), d),
+                 ("verify", lambda x: ctx.verify(pw, x), d), ("disable-disabled", lambda x: ctx.disable(x), d)]
+        if restorable:
+            forms.append(("enable", lambda x: ctx.enable(x), d))
+        for label, fn, text in forms:
+            if not text.isascii():
+                continue
+            a, b = call(fn, text), call(fn, text.encode("ascii"))
+            if dis == "django_disabled" and label.startswith("disable") and a[0] == b[0] == "ok":
+                a, b = ("ok", (a[1][:1], len(a[1]))), ("ok", (b[1][:1], len(b[1])))  # random suffix: compare the shape
+            if a[0] == "ok" and (b[0] == "err" or a[1] != b[1]):
+                rec.fail(f"C18/bytes-form/{dis}/{label}", f"{label}() answers differently for the ASCII-bytes form of the stored string", "disable_enable", case, repr(b[1])[:120], repr(a[1])[:120], soft=soft)
+                return
     # a normal hash is returned unchanged by enable(), and is enabled
     if kind == "hash" and not marker_orig:
         if ctx.enable(orig) != orig or ctx.is_enabled(orig) is not True:
